@@ -58,6 +58,16 @@ def crc_group(rngs, s, b, f):
         o, _ = d[(s, 0, "f.backward_size")]; e = d[(s, 0, "f.flags")]; return o, e[0] + e[1], d[(s, 0, "f.crc32")][0]
     return None
 
+def nonmin_insert(buf, q, grp):
+    """the VLI at q rewritten with the same value in a non-minimal encoding (one byte inserted); returns the moved CRC32 group"""
+    e = q
+    while buf[e] & 0x80:
+        e += 1
+    buf[e] |= 0x80
+    buf.insert(e + 1, 0x00)
+    a, z, c = grp
+    return (a, z + 1, c + 1)
+
 def fix_crc(buf, grp):
     from harness.glue import crc as gcrc
     a, e, c = grp
@@ -228,9 +238,10 @@ def xz_faults(ctx, D, lz, bases, table, cat, start=0, cli=None, heavy=False):
             grp = crc_group(rngs, s, b, f)
             def over(cls, edit, where):
                 buf = bytearray(data)
-                if edit(buf) is False:
+                g2 = edit(buf)
+                if g2 is False:
                     return
-                fix_crc(buf, grp)
+                fix_crc(buf, g2 if isinstance(g2, tuple) else grp)
                 r, o, _ = run(buf)
                 J.check("buffer", bk, "over", s, b, f, cls, r, o == orig, where, bytes(buf).hex() if len(buf) < 600 else None)
                 r2, o2, _, _ = run_code(buf)
@@ -266,6 +277,18 @@ def xz_faults(ctx, D, lz, bases, table, cat, start=0, cli=None, heavy=False):
                         return False
                     buf[off + ln - 1] += 1       # the value grows, the VLI keeps its length
                 over("value", inc, "value + 1")
+                if f == "i.count":
+                    over("nonmin", lambda buf: nonmin_insert(buf, off, grp), "Number of Records in a non-minimal encoding")
+                else:
+                    # the same value one byte longer; the byte comes out of the Header Padding (the header keeps its size)
+                    pd = [x for x in rngs if x[0] == s and x[1] == b and x[2] == "bh.padding"]
+                    if pd and pd[0][4] >= 1:
+                        def nm(buf, pd=pd[0]):
+                            v = bytes(buf[off:off + ln])
+                            new = v[:-1] + bytes([v[-1] | 0x80, 0x00])
+                            rest = bytes(buf[off + ln:pd[3] + pd[4] - 1])      # what lies between the field and the last padding byte
+                            buf[off:pd[3] + pd[4]] = new + rest
+                        over("nonmin", nm, "size field in a non-minimal encoding")
             elif f == "bh.filters":
                 over("unknown_id", lambda buf: buf.__setitem__(off, 0x22 if buf[off] != 0x22 else 0x23), "first Filter ID := unassigned")
                 # the LZMA2 dictionary size byte is the last byte of the filters: another valid size means the same data
@@ -275,6 +298,12 @@ def xz_faults(ctx, D, lz, bases, table, cat, start=0, cli=None, heavy=False):
                     for v in (1, 0x80, 0xFF):
                         over("nonzero", lambda buf, i=i, v=v: buf.__setitem__(off + i, v), "padding byte %d := %#x" % (i, v))
             elif f == "i.records":
+                vstarts = [off]
+                for q in range(off, off + ln - 1):
+                    if not data[q] & 0x80:
+                        vstarts.append(q + 1)
+                over("nonmin", lambda buf: nonmin_insert(buf, vstarts[0], grp), "first Unpadded Size in a non-minimal encoding")
+                over("nonmin", lambda buf: nonmin_insert(buf, vstarts[-1], grp), "last Uncompressed Size in a non-minimal encoding")
                 def first_up(buf):
                     if buf[off] & 0x80 or buf[off] + 4 > 0x7F:
                         # multi-byte Unpadded Size: bump the low 7 bits
@@ -298,6 +327,11 @@ def xz_faults(ctx, D, lz, bases, table, cat, start=0, cli=None, heavy=False):
                     v = struct.unpack_from("<I", buf, off)[0]
                     struct.pack_into("<I", buf, off, v + 1)
                 over("value", bs, "Backward Size + 4 bytes")
+                for k in (1, 2, 3):
+                    def wrap(buf, k=k):
+                        v = struct.unpack_from("<I", buf, off)[0]
+                        struct.pack_into("<I", buf, off, (v + (k << 30)) & 0xFFFFFFFF)
+                    over("wrap", wrap, "stored Backward Size + %d * 2^30" % k)
             # ---------------- one byte inserted / deleted at every offset of the field
             for i in range(ln):
                 for kind in ("ins", "del"):
